@@ -319,3 +319,109 @@ def g_inv_absent_lemma(cls, which, kind, o_dim=2, ri_dim=-1):
         b = con(it, t_zeros((Bn, C, 2 * H, 2 * W), dtype=prims.DT_IN, kind='torch'), hs, *g, o_dim, ri_dim, 1)
     oid = 'LEMMA/%s.apply[%s %s == zeros]' % (cls, which, kind)
     return verify.value_equal(oid, 'LEMMA', a, b, c.pc, FMV), {}
+
+
+# ---------------------------------------------------------------------------
+# perfect reconstruction: lemmas
+# ---------------------------------------------------------------------------
+def g_q2c_roundtrip():
+    """c2q(q2c(y)) == y"""
+    CUR.ctx = Ctx(BASE)
+    c = ctx()
+    it = Interp()
+    y = CD.data_tensor('y', (Bn, C, 2 * H, 2 * W))
+    w1, w2 = CT.q2c_contract(it, y)
+    back = CT.c2q_contract(it, w1, w2)
+    return verify.value_equal('LEMMA/c2q(q2c(y))==y', 'LEMMA', back, y, c.pc, SIZES), {}
+
+
+def g_ext_crop_roundtrip():
+    """the inverse's crop [1:-1] undoes the forward's one-sample-each-side lowpass extension; the odd-size
+    replication leaves the image in the top-left corner"""
+    from . import modules_dtcwt as MD
+    obs = []
+    for k, (c, out) in enumerate(explore(lambda: (lambda x: (x, MD.ext_mult4(x)))(CD.data_tensor('x', (Bn, C, 2 * H, 2 * W))), BASE)):
+        CUR.ctx = c
+        x, e = out[1]
+        r0 = 1 if c.entails(I(e.shape[2]) != I(x.shape[2])) else 0
+        c0 = 1 if c.entails(I(e.shape[3]) != I(x.shape[3])) else 0
+        back = tget(e, (slice(None), slice(None), slice(1, -1) if r0 else slice(None), slice(1, -1) if c0 else slice(None)))
+        obs += verify.value_equal('LEMMA/crop(extend-to-multiple-of-4(x))==x/path%d' % k, 'LEMMA', back, x, c.pc, SIZES)
+        obs.append(solve.prove('LEMMA/extension-gives-multiple-of-4/path%d' % k, 'LEMMA', c.pc,
+                               z3.And(I(e.shape[2]) % 4 == 0, I(e.shape[3]) % 4 == 0), SIZES))
+    for k, (c, out) in enumerate(explore(lambda: (lambda x: (x, MD.ext_odd(x)))(CD.data_tensor('x', (Bn, C, H, W))), BASE)):
+        CUR.ctx = c
+        x, e = out[1]
+        back = tget(e, (slice(None), slice(None), slice(0, x.shape[2]), slice(0, x.shape[3])))
+        obs += verify.value_equal('LEMMA/odd-size-replication-keeps-x-top-left/path%d' % k, 'LEMMA', back, x, c.pc, SIZES)
+        obs.append(solve.prove('LEMMA/replication-gives-even-size/path%d' % k, 'LEMMA', c.pc,
+                               z3.And(I(e.shape[2]) % 2 == 0, I(e.shape[3]) % 2 == 0, I(e.shape[2]) - I(x.shape[2]) <= 1), SIZES))
+    return obs, {}
+
+
+def g_level1_closed_form():
+    """level 1, one axis, symmetric odd filters h (analysis) and g (synthesis), image at least as long as the filters:
+       colfilter(colfilter(x, h), g)[i] == sum_{t,s} h[t] g[s] x_ext[i + (mh//2 - t) + (mg//2 - s)]
+    (filtering with a symmetric filter commutes with the symmetric extension).  With the TABLE identity
+    conv(h0,g0) + conv(h1,g1) = delta this is level-1 perfect reconstruction along that axis."""
+    mhh, mgg = z3.Ints('mh_ mg_')
+    base = BASE + [mhh >= 1, mgg >= 1, mhh % 2 == 1, mgg % 2 == 1, H >= mhh, H >= mgg]
+    CUR.ctx = Ctx(base)
+    c = ctx()
+    it = Interp()
+    x = CD.data_tensor('x', (Bn, C, H, W))
+    h = CT.sym_filter('h', mhh)
+    g = CT.sym_filter('g', mgg)
+    y = CT.COLF(it, CT.COLF(it, x, h, 'symmetric'), g, 'symmetric')
+    xs = x.snap()
+    hs_, gs__ = h.snap(), g.snap()
+
+    def elem(idx):
+        n_, c_, i, j = idx
+        return bk.sum(0, mhh, lambda t: bk.sum(0, mgg, lambda s: hs_([0, 0, simp(mhh - 1 - I(t)), 0]) * gs__([0, 0, simp(mgg - 1 - I(s)), 0]) *
+                                              xs([n_, c_, prims.EXT_SYM(I(i) + (mhh - 1) / 2 - I(t) + (mgg - 1) / 2 - I(s), I(H)), j])))
+    cf = fresh_like(x.shape, elem, x)
+    return verify.value_equal('LEMMA/level1-closed-form(symmetric filters commute with symmetric extension)', 'LEMMA', y, cf, c.pc,
+                              SIZES + [mhh, mgg]), {}
+
+
+def conc_filter(vals, name):
+    """prepared (time-reversed) filter tensor with the concrete taps vals (exact rationals)"""
+    m = len(vals)
+    vals = list(vals)
+
+    def elem(idx):
+        a = idx[2]
+        out = ZERO
+        for t in range(m):
+            v = vals[m - 1 - t]
+            if v == 0:
+                continue
+            out = out + GS.const(v).guard(I(a) == t)
+        return out
+    return STensor((1, 1, m, 1), elem, meta=dict(kind='torch', dtype=prims.DT_IN, contig=True, name=name))
+
+
+def g_qshift_pr_symbolic(table, tol=1e-9, single_reflection=True, perturb=None):
+    """q-shift level, one axis, CONCRETE taps of one shipped table, symbolic image length r (multiple of 4):
+       colifilt(coldfilt(x,h0b,h0a), g0b,g0a) + colifilt(coldfilt(x,h1b,h1a,hp), g1b,g1a,hp) == x   (within tol)"""
+    from . import groups_tables as T
+    t = T.load(table)
+    f = {k: T.frac(t[k]) for k in t if not k.startswith('__') and k != 'param'}
+    m = len(f['h0a'])
+    if perturb is not None:
+        from fractions import Fraction as Fr
+        f['g0a'] = list(f['g0a'])
+        f['g0a'][m // 2] += Fr(perturb)
+    base = [Bn >= 1, C >= 1, H >= 1, W >= 1]
+    if single_reflection:
+        base.append(4 * H >= 2 * m)
+    CUR.ctx = Ctx(base)
+    c = ctx()
+    it = Interp()
+    x = CD.data_tensor('x', (Bn, C, 4 * H, W))
+    F_ = {k: conc_filter(v, k) for k, v in f.items()}
+    lo = CT.COLD(it, x, F_['h0b'], F_['h0a'], False, 'symmetric')
+    hi = CT.COLD(it, x, F_['h1b'], F_['h1a'], True, 'symmetric')
+    y = t_bin('+', CT.COLI(it, lo, F_['g0b'], F_['g0a'], False, 'symmetric'), CT.COLI(it, hi, F_['g1b'], F_['g1a'], True, 'symmetric'))
+    return verify.value_equal('LEMMA/qshift-PR-1d[%s]' % table, 'LEMMA', y, x, c.pc, SIZES, tol=tol), {'m': m}
